@@ -33,16 +33,27 @@ package db
 //@ func DatabaseCollectionWithUser.setAttachments
 //@   props C11 C14
 //@   modifies *
-//@   only-contracts none
+//@   requires[sentinel-initialised] !isNilErr(ErrAttachmentTooLarge)   // package-level `var ErrAttachmentTooLarge = errors.New(...)`: set at package initialisation, never assigned again
+//@   only-contracts AddRaw
 //@   propagates AddRaw#1
+//@   stops-loop AddRaw#1
 // (C14) what is stored under an attachment key is exactly the body filed under that key, never expiring, within the size limit
 //@   before[stores-entry] call AddRaw#1 ($2 in attachments) && $4 == attachments[$2].body && $3 == 0
 //@   before[size-checked] call AddRaw#1 len($4) <= maxAttachmentSizeBytes
+// (C14 C11) loop-aware: success means EVERY body of the map is in the bucket (added or already present); an oversize body is an error
+//@   ensures[all-stored] isNilErr(result) ==> (forall k string :: {k in rawPresent} {k in attachments} (k in attachments) ==> (k in rawPresent))
+//@   ensures[none-oversize] isNilErr(result) ==> (forall k string :: {k in attachments} (k in attachments) ==> len(attachments[k].body) <= maxAttachmentSizeBytes)
+//@   ensures[last-written] isNilErr(result) ==> !called(AddRaw, 1) || isNilErr(callres(AddRaw, 1, 1))
+//@   loop 1 invariant[stored-so-far] forall k string :: {k in #visited} {k in rawPresent} (k in #visited) ==> (k in rawPresent)
+//@   loop 1 invariant[sized-so-far] forall k string :: {k in #visited} (k in #visited) ==> len(attachments[k].body) <= maxAttachmentSizeBytes
 
 //@ func DatabaseCollectionWithUser.addAttachments
+//@   props C11 C14
+//@   requires[sentinel-initialised] !isNilErr(ErrAttachmentTooLarge)
 //@   modifies *
-//@   only-contracts HTTPErrorf, Wrap
+//@   only-contracts HTTPErrorf, Wrap, setAttachments
 //@   propagates setAttachments#1
+//@   ensures[all-stored] isNilErr(result) ==> (forall k string :: {k in rawPresent} {k in newAttachments} (k in newAttachments) ==> (k in rawPresent))
 
 // ---- revision bodies ----
 //@ func Document.persistRevisionBody
